@@ -41,6 +41,10 @@ def alphabet(max_size):
         'UPD22': wire.MARKER + (22).to_bytes(2, 'big') + b'\x02' + bytes(3),
         'OPEN28': wire.MARKER + (28).to_bytes(2, 'big') + b'\x01' + bytes(9),
         'NOTIF20': wire.MARKER + (20).to_bytes(2, 'big') + b'\x03' + bytes(1),
+        # a bare header (19 octets, the KEEPALIVE size) under a type that needs a body
+        'NOTIF19': wire.MARKER + (19).to_bytes(2, 'big') + b'\x03',
+        'UPD19': wire.MARKER + (19).to_bytes(2, 'big') + b'\x02',
+        'RR19': wire.MARKER + (19).to_bytes(2, 'big') + b'\x05',
         'TYPE0': wire.frame(0, b''),
         'TYPE7': wire.frame(7, b'\x00'),
         'TYPE255': wire.frame(255, b'ab'),
